@@ -1,3 +1,142 @@
+import Mhd.Model.Str
+import Mhd.Model.StrCodec
+import Mhd.Model.StrToken
 import Driver.Common
-/- stub: replaced by the builder of this engine -/
-def main : IO Unit := Driver.runEngine () (fun s _ => (s, ["bad-op"]))
+/-
+  Model driver of engine `str` (property C17): same line protocol as
+  harness/h_str.c — one function call per line, one output line per input line.
+-/
+open Mhd.Str Driver
+
+def showFault : Fault → String
+  | .read i => s!"fault read {i}"
+  | .write i => s!"fault write {i}"
+  | .fuel => "fault fuel"
+
+/-- output buffer as the harness allocates it -/
+def outBuf (n : Nat) : Bytes := List.replicate n 0xAA
+
+def z (s : Bytes) : Bytes := s ++ [0]
+
+def showNum (r : M (Nat × Nat)) : String :=
+  match r with
+  | .error e => showFault e
+  | .ok (n, v) => if n = 0 then "r=0" else s!"r={n} v={v}"
+
+def showOut (size : Nat) (r : M (Nat × Bytes)) : String :=
+  match r with
+  | .error e => showFault e
+  | .ok (n, o) => if n > size then s!"fault ret-beyond-size {n}" else s!"r={n} o={hexOfBytes (o.take n)}"
+
+def b01 (b : Bool) : String := if b then "1" else "0"
+
+def showBool (r : M Bool) : String :=
+  match r with
+  | .error e => showFault e
+  | .ok b => s!"r={b01 b}"
+
+def maxSize : Nat := 2 ^ 20
+
+def stepLine (_ : Unit) (ws : List String) : Unit × List String :=
+  let bad := ((), ["bad-op"])
+  let one (s : String) := ((), [s])
+  match ws with
+  | [op, a] =>
+    if op == "xd" then
+      match a.toNat? with
+      | some c => if c < 256 then one s!"r={toxdigitvalue (UInt8.ofNat c)}" else bad
+      | none => bad
+    else
+    match bytesOfHex a with
+    | none => bad
+    | some s =>
+      if op == "d64" then one (showNum (strToUint64 (z s)))
+      else if op == "d64n" then one (showNum (strToUint64N s))
+      else if op == "x32" then one (showNum (strxToUint32 (z s)))
+      else if op == "x32n" then one (showNum (strxToUint32N s))
+      else if op == "x64" then one (showNum (strxToUint64 (z s)))
+      else if op == "x64n" then one (showNum (strxToUint64N s))
+      else if op == "b2h" then one (showOut (2 * s.length) (binToHex s (outBuf (2 * s.length))))
+      else if op == "h2b" then one (showOut ((s.length + 1) / 2) (hexToBin s (outBuf ((s.length + 1) / 2))))
+      else if op == "unq" then one (showOut s.length (unquote s (outBuf s.length)))
+      else if op == "pis" then
+        match pctDecodeInPlaceStrict (z s) with
+        | .error e => one (showFault e)
+        | .ok (n, b) =>
+          if n > s.length then one s!"fault ret-beyond-size {n}"
+          else one s!"r={n} o={hexOfBytes (b.take n)} z={b01 (b.getD n 1 == 0)}"
+      else if op == "pil" then
+        match pctDecodeInPlaceLenient (z s) with
+        | .error e => one (showFault e)
+        | .ok (n, b, br) =>
+          if n > s.length then one s!"fault ret-beyond-size {n}"
+          else one s!"r={n} o={hexOfBytes (b.take n)} z={b01 (b.getD n 1 == 0)} b={b01 br}"
+      else bad
+  | [op, a, b] =>
+    if op == "p32x" || op == "p16" || op == "p64" then
+      match a.toNat?, b.toNat? with
+      | some v, some size =>
+        if size > 4096 then bad
+        else if op == "p32x" then (if v > u32Max then bad else one (showOut size (uint32ToStrx v (outBuf size))))
+        else if op == "p16" then (if v > 65535 then bad else one (showOut size (uint16ToStr v (outBuf size))))
+        else (if v > u64Max then bad else one (showOut size (uint64ToStr v (outBuf size))))
+      | _, _ => bad
+    else if op == "ceq" then
+      match a.toNat?, b.toNat? with
+      | some x, some y => if x < 256 ∧ y < 256 then one s!"r={b01 (charsEqualCaseless (UInt8.ofNat x) (UInt8.ofNat y))}" else bad
+      | _, _ => bad
+    else if op == "pcs" || op == "pcl" || op == "quo" || op == "b64" then
+      match bytesOfHex a, b.toNat? with
+      | some s, some size =>
+        if size > maxSize then bad
+        else if op == "pcs" then one (showOut size (pctDecodeStrictN s (outBuf size)))
+        else if op == "quo" then one (showOut size (quote s (outBuf size)))
+        else if op == "b64" then one (showOut size (base64ToBinN s (outBuf size)))
+        else
+          match pctDecodeLenientN s (outBuf size) with
+          | .error e => one (showFault e)
+          | .ok (n, o, br) =>
+            if n > size then one s!"fault ret-beyond-size {n}"
+            else one s!"r={n} o={hexOfBytes (o.take n)} b={b01 br}"
+      | _, _ => bad
+    else
+      match bytesOfHex a, bytesOfHex b with
+      | some s, some t =>
+        if op == "eqq" then one (showBool (equalQuotedBinN s t))
+        else if op == "eqqc" then one (showBool (equalCaselessQuotedBinN s t))
+        else if op == "eqc" then one (showBool (equalCaseless (z s) (z t)))
+        else if op == "eqcb" then (if s.length ≠ t.length then bad else one (showBool (equalCaselessBinN s t s.length)))
+        else if op == "tok" then one (showBool (hasTokenCaseless (z s) t))
+        else if op == "rmts" then
+          match removeTokensCaseless s t with
+          | .error e => one (showFault e)
+          | .ok (r, len, buf) =>
+            if len > s.length then one s!"fault ret-beyond-size {len}"
+            else one s!"r={b01 r} o={hexOfBytes (buf.take len)}"
+        else bad
+      | _, _ => bad
+  | [op, a, b, c] =>
+    if op == "p8" then
+      match a.toNat?, b.toNat?, c.toNat? with
+      | some v, some pad, some size =>
+        if v > 255 ∨ pad > 3 ∨ size > 4096 then bad else one (showOut size (uint8ToStrPad v pad (outBuf size)))
+      | _, _, _ => bad
+    else if op == "eqcn" then
+      match bytesOfHex a, bytesOfHex b, c.toNat? with
+      | some s, some t, some k => if k < 2 ^ 64 then one (showBool (equalCaselessN (z s) (z t) k)) else bad
+      | _, _, _ => bad
+    else if op == "rmt" then
+      match bytesOfHex a, bytesOfHex b, c.toNat? with
+      | some s, some t, some size =>
+        if size > maxSize then bad else
+        match removeTokenCaseless s t (outBuf size) with
+        | .error e => one (showFault e)
+        | .ok (r, n, o) =>
+          if n > (size : Int) then one s!"fault ret-beyond-size {n}"
+          else if n ≥ 0 then one s!"r={b01 r} n={n} o={hexOfBytes (o.take n.toNat)}"
+          else one s!"r={b01 r} n={n}"
+      | _, _, _ => bad
+    else bad
+  | _ => bad
+
+def main : IO Unit := runEngine () stepLine
